@@ -20,3 +20,4 @@ def run(ck):
     fresh.returned_objects_fresh(ck, "C20.R1")
     fresh.constructor_state(ck, "C20.R2")            # results and operands are built by the constructor: own status record, own final configuration
     routes.who_writes_codes(ck, "C02.R1")             # shifted codes reach the buffer through set_val (clamped or wrapped), or by the in-place >>
+    fresh.no_hidden_state(ck, "C20.R8")                  # results depend on the documented state only (no caches / memos)
